@@ -416,6 +416,23 @@ func run(t *testing.T, tape *simrt.Tape) *hx.Outcome {
 				mr, merr := memorymetadata.NewReader(sr, opts...)
 				t.Yield("between-stores")
 				dr, derr := dbmetadata.NewReader(bdb, sr, opts...)
+				// a reader may be cloned at once (the background fetch does, with its own blob reader), before any
+				// call that waits for the db store's background parsing: the clones must agree like the originals
+				var mclone, dclone metadata.Reader
+				if merr == nil && derr == nil && s.Tape.Draw("clone:"+t.Label, 3) == 0 {
+					var e1, e2 error
+					dclone, e1 = dr.Clone(sr)
+					mclone, e2 = mr.Clone(sr)
+					if e1 != nil || e2 != nil {
+						mclone, dclone = nil, nil
+					}
+				}
+				var cmo, cdo obs
+				if mclone != nil {
+					// ... and are used at once
+					cdo = describe(dclone, true, probes)
+					cmo = describe(mclone, true, probes)
+				}
 				var dinit error
 				if derr == nil {
 					// the db store parses in the background: force completion to learn accept/reject
@@ -456,6 +473,16 @@ func run(t *testing.T, tape *simrt.Tape) *hx.Outcome {
 					return
 				}
 				compared++
+				if mclone != nil && dclone != nil {
+					mo, do := cmo, cdo
+					if mo.faulted || do.faulted {
+						out.Counters["probe_faulted"]++
+					} else if df := diff(mo.lines, do.lines); df != "" {
+						s.Fail("clones-differ", "layer %d (%s %v): readers cloned right after opening: %s", i, li.kind, li.notes, df)
+						return
+					}
+					out.Counters["clones_compared"]++
+				}
 				fa.off = true
 				open[i] = &opened{mem: mr, db: dr, fa: fa, before: describe(dr, true, probes)}
 				s.Event("layer %d opened and compared (%d lines)", i, len(do.lines))
